@@ -1248,7 +1248,7 @@ func (db *DB) Repair(of Object) (err error) {
 	}
 
 	// we re-index missing objects in index
-	if uuids, err = uuidsFromDir(dir); err != nil {
+	if uuids, err = objectsFromDir(dir, s.filenameFromUUID); err != nil {
 		return
 	}
 
